@@ -212,12 +212,12 @@ class Engine:
         while True:
             p = self.pos
             is_new = p >= len(self.prefix)
-            if is_new:
+            pv = None if is_new else self.prefix[p][2]
+            from_model = pv is None
+            if from_model:
+                # new decision - or a value that the decided conditions already imply (answered below without
+                # consuming a decision; the recorded log has no entry for it)
                 pv = _pyval(self.model().eval(e, model_completion=True))
-            else:
-                pv = self.prefix[p][2]
-                if pv is None:
-                    raise HarnessError('replay divergence: expected a concretisation decision')
             if kind == z3.Z3_INT_SORT:
                 cond = proxies.eq_const(e, pv)
             else:
@@ -230,6 +230,8 @@ class Engine:
                 raise HarnessError(f'cannot concretise {e}')
             if is_new:
                 self.prefix[p][2] = pv
+            elif from_model:
+                raise HarnessError('replay divergence: expected a concretisation decision')
             if r:
                 self._values[eid] = pv
                 return pv
@@ -352,13 +354,13 @@ class SymSrc(_SrcBase):
         self.eng.assume_expr(c)
         return SymInt(v)
 
-    def int_in(self, name, domain):
+    def int_in(self, name, domain, eager=False):
         domain = tuple(domain)
         v, c = _cached_var(('int_in', name, domain), lambda: z3.Int(name),
                            lambda v: z3.Or([proxies.eq_const(v, d) for d in domain]))
         self._declare(name, 'int', domain, v)
         self.eng.assume_expr(c)
-        return SymInt(v)
+        return proxies.EagerInt(v) if eager else SymInt(v)
 
     def real(self, name, lo=None, hi=None):
         v = z3.Real(name)
@@ -440,7 +442,7 @@ class ConcSrc(_SrcBase):
     def int(self, name, lo, hi):
         return int(self._get(name))
 
-    def int_in(self, name, domain):
+    def int_in(self, name, domain, eager=False):
         return int(self._get(name))
 
     def real(self, name, lo=None, hi=None):
